@@ -229,7 +229,7 @@ def op_strategy(n, *, existing_only=False, with_solve=False):
     if not existing_only:
         ops += [
             st.tuples(st.just('add_variable'), nm, o, st.sampled_from([None, None, 'float', 'int', 'bool', 'str', 'U2'])).map(list),
-            st.tuples(st.just('add_attribute'), st.sampled_from(['note', 'X', 'span', 'k', 'index']), st.sampled_from([1, {'s': 'v'}])).map(list),
+            st.tuples(st.just('add_attribute'), st.sampled_from(['note', 'X', 'span', 'k', 'index', 's', 'sub', 'models', 'e', 'pan', 'tes', 'x']), st.sampled_from([1, {'s': 'v'}])).map(list),
             st.tuples(st.just('strict'), st.booleans()).map(list),
         ]
     if with_solve:
